@@ -100,6 +100,8 @@ type Msg struct {
 	// deterministic function of both, so cross-talk and stale bytes show up.
 	TLen  int `json:"tlen"`
 	TSeed int `json:"tseed"`
+	// Bad: the text is not valid UTF-8, so no codec can marshal the message
+	Bad bool `json:"bad,omitempty"`
 }
 
 const alphabet = "abcdefghijklmnopqrstuvwxyzABCDEFGHIJKLMNOPQRSTUVWXYZ0123456789"
@@ -107,6 +109,9 @@ const alphabet = "abcdefghijklmnopqrstuvwxyzABCDEFGHIJKLMNOPQRSTUVWXYZ0123456789
 // Text expands the text of a message. Seeds ≥ 1000 produce highly
 // compressible text; others produce varied text.
 func (m Msg) Text() string {
+	if m.Bad {
+		return "bad\xff\xfe"
+	}
 	if m.TLen <= 0 {
 		return ""
 	}
@@ -298,7 +303,9 @@ type HandlerProg struct {
 	Drain   bool    `json:"drain,omitempty"` // after the steps, receive until the request stream ends
 	// PropagateRecvErr makes the handler return the error of a failed Receive
 	// (as any realistic handler does) instead of carrying on.
-	PropagateRecvErr bool     `json:"propagate_recv_err,omitempty"`
+	PropagateRecvErr bool `json:"propagate_recv_err,omitempty"`
+	// PropagateSendErr makes the handler stop at a failed Send and return its error.
+	PropagateSendErr bool     `json:"propagate_send_err,omitempty"`
 	Resp             *Msg     `json:"resp,omitempty"` // unary / client-stream response
 	Final            *ErrSpec `json:"final,omitempty"`
 }
@@ -357,6 +364,7 @@ type runner struct {
 	// PanicFn is consulted for "panic" steps.
 	panicFn func(kind string)
 	recvErr error
+	sendErr error
 }
 
 func (r *runner) recvN(c hconn, n int) {
@@ -390,6 +398,10 @@ func (r *runner) steps(c hconn) {
 			if c != nil && s.Msg != nil {
 				if err := c.send(s.Msg.Res()); err != nil {
 					r.call.SendErrs = append(r.call.SendErrs, ViewErr(err))
+					if r.p.PropagateSendErr {
+						r.sendErr = err
+						return
+					}
 				} else {
 					r.call.Sent++
 				}
@@ -424,6 +436,9 @@ func (r *runner) steps(c hconn) {
 func (r *runner) final() error {
 	if r.p.PropagateRecvErr && r.recvErr != nil {
 		return r.recvErr
+	}
+	if r.sendErr != nil {
+		return r.sendErr
 	}
 	if r.p.Final == nil {
 		return nil
